@@ -97,7 +97,9 @@ def random_types(rng: random.Random, user: list[str], n: int) -> list[dict]:
             if x["k"] != "union" and tkey(x) not in seen:
                 seen.add(tkey(x))
                 items.append(x)
-        return T("union", "", items) if len(items) >= 2 else items[0]
+        if len(items) >= 2:
+            return T("union", "", items)
+        return items[0] if items else rng.choice(atoms)
 
     out = []
     for _ in range(n):
